@@ -68,7 +68,10 @@ func init() {
 			})
 			c.guard("arrayrange", func() { ruleArrayRange(c, "arrayrange", "alphabet"); c.floor("arrayrange", 4) })
 			c.guard("eofspin", func() { ruleEOFSpin(c, "eofspin", "io/seqio/fasta", "io/seqio/fastq"); c.floor("eofspin", 2) })
-			c.guard("byteidx", func() { ruleByteIdx(c, "byteidx", "io/featio/bed", "io/featio/gff", "io/seqio/fasta", "io/seqio/fastq"); c.floor("byteidx", 4) })
+			c.guard("byteidx", func() {
+				ruleByteIdx(c, "byteidx", "io/featio/bed", "io/featio/gff", "io/seqio/fasta", "io/seqio/fastq")
+				c.floor("byteidx", 4)
+			})
 			c.guard("lineio/eofhang", func() {
 				ruleEOFPaths(c, "lineio/eofhang", "", "io/featio/bed", "io/featio/gff")
 				c.floor("lineio/eofhang", 3)
@@ -146,7 +149,10 @@ func init() {
 			c.guard("spancheck", func() { ruleSpanCheck(c, "spancheck") })
 			c.guard("attrsplit", func() { ruleAttrSplit(c, "attrsplit"); c.floor("attrsplit", 1) })
 			c.guard("linelimit", func() { ruleLineLimit(c, "linelimit", "io/featio/bed", "io/featio/gff") })
-			c.guard("intervalcoherent", func() { ruleIntervalCoherent(c, "intervalcoherent", "io/featio/bed", "io/featio/gff"); c.floor("intervalcoherent", 9) })
+			c.guard("intervalcoherent", func() {
+				ruleIntervalCoherent(c, "intervalcoherent", "io/featio/bed", "io/featio/gff")
+				c.floor("intervalcoherent", 9)
+			})
 			c.guard("bytecount", func() { ruleByteCount(c, "bytecount", "io/featio/bed", "io/featio/gff"); c.floor("bytecount", 28) })
 		},
 	})
@@ -207,7 +213,10 @@ func init() {
 			c.guard("parallelidx", func() { ruleParallelIdx(c, "parallelidx"); c.floor("parallelidx", 1) })
 			c.guard("trimwindow", func() { ruleTrimWindow(c, "trimwindow"); c.floor("trimwindow", 2) })
 			c.guard("nonneglen", func() { ruleNonNegLen(c, "nonneglen", "Truncate", "Stitch", "Compose"); c.floor("nonneglen", 8) })
-			c.guard("intervalcoherent", func() { ruleIntervalCoherent(c, "intervalcoherent", "seq/linear", "seq/alignment", "seq/multi"); c.floor("intervalcoherent", 6) })
+			c.guard("intervalcoherent", func() {
+				ruleIntervalCoherent(c, "intervalcoherent", "seq/linear", "seq/alignment", "seq/multi")
+				c.floor("intervalcoherent", 6)
+			})
 			c.guard("mustpass", func() { ruleScratchReverse(c, "mustpass"); c.floor("mustpass", 1) })
 			c.guard("qtravel", func() {
 				ruleQTravel(c, "qtravel", [][2]string{{"seq/linear", "(*QSeq).RevComp"}, {"seq/linear", "(*QSeq).Reverse"}, {"seq/alignment", "(*QSeq).RevComp"}, {"seq/alignment", "(*QSeq).Reverse"}})
@@ -243,7 +252,10 @@ func init() {
 			})
 			c.guard("nilfunc", func() { ruleNilFunc(c, "nilfunc"); c.floor("nilfunc", 1) })
 			c.guard("reflectnew", func() { ruleReflectNew(c, "reflectnew", "seq/multi", "seq/alignment", "seq/linear", "seq/sequtils") })
-			c.guard("intervalcoherent", func() { ruleIntervalCoherent(c, "intervalcoherent", "seq/linear", "seq/alignment", "seq/multi"); c.floor("intervalcoherent", 6) })
+			c.guard("intervalcoherent", func() {
+				ruleIntervalCoherent(c, "intervalcoherent", "seq/linear", "seq/alignment", "seq/multi")
+				c.floor("intervalcoherent", 6)
+			})
 			c.guard("fillwatermark", func() {
 				ruleFillWatermark(c, "fillwatermark", [][2]string{{"alphabet", "Letter.Repeat"}, {"alphabet", "QLetter.Repeat"}})
 				c.floor("fillwatermark", 2)
